@@ -178,21 +178,14 @@ def pick_envs(rnd, n_env, files, user_names):
                "", "decoder.py", "__init__", "__init__.py", "user", "links", "lnk_pkg", "stdlib", "std_json", "os",
                "dotted.name", "mod.v2", "mod", "noext", ".hidden", "..py", ".", "trailing.", "trailing", "libcst",
                "monkeytype", "email", "mime", "pkg_a.mod1", "json.decoder", "verif", "_work", " json", "JSON", "möd"]
-    envs = ["", "json", "pkg_a,decoder", "site-packages,lib,python3.12", "/", "decoder.py,__init__", ",", "json,,os"]
-    while len(envs) < n_env + 8:
-        k = rnd.choice([1, 1, 2, 2, 3, 3])
-        names = [rnd.choice(special) if rnd.random() < 0.6 else rnd.choice(pool) for _ in range(k)]
-        envs.append(",".join(names))
-    fixed = envs[:8]
-    rest = envs[8:]
-    if n_env <= 4:
-        chosen = [fixed[0], fixed[2], fixed[5]] + rest[:max(0, n_env - 3)]
-    else:
-        chosen = fixed + rest[:n_env - 8] if n_env > 8 else fixed[:n_env]
-    seen, out = set(), []
-    for e in chosen:
-        if e not in seen:
-            seen.add(e)
+    fixed = ["", "pkg_a,decoder", "decoder.py,__init__,/", "json", "site-packages,lib,python3.12", ",", "json,,os", "mod1"]
+    out = fixed[:min(n_env, len(fixed))]
+    tries = 0
+    while len(out) < n_env and tries < 1000:
+        tries += 1
+        k = rnd.choice([1, 2, 2, 3, 3])
+        e = ",".join(rnd.choice(special) if rnd.random() < 0.6 else rnd.choice(pool) for _ in range(k))
+        if e not in out:
             out.append(e)
     return out
 
@@ -293,9 +286,10 @@ def run_filter(args):
             os.environ["MONKEYTYPE_TRACE_MODULES"] = env
         default_code_filter.cache_clear()
         names = None if env is None else env.split(",")
+        cap = args.get("per_file_cap") if env is not None else None
         for raw, codes in groups.items():
             answers = {}
-            for c in codes:
+            for c in (codes if cap is None or len(codes) <= cap else [codes[0], codes[-1]] + rnd.sample(codes, cap - 2)):
                 try:
                     a = default_code_filter(c)
                     a = a if isinstance(a, bool) else "non-bool:" + repr(a)
@@ -304,12 +298,41 @@ def run_filter(args):
                 except Exception as e:
                     a = "raised:" + repr(e)
                 n_eval += 1
-                answers[a if not isinstance(a, str) else a] = answers.get(a, 0) + 1
+                answers[a] = answers.get(a, 0) + 1
             if len(answers) > 1:
                 inconsistent += 1
             for a, cnt in answers.items():
                 cases.append({"raw": raw, "resolved": resolved[raw], "env": env, "names": names, "impl": a,
                               "n_code": cnt, "kind": kinds[raw]})
+    # ---- identical code in two files (code objects compare equal regardless of co_filename) ----
+    twin_src = "def same(x):\n    return x\n"
+    twin_user = os.path.join(work, "user", "twin.py")
+    with open(twin_user, "w") as fh:
+        fh.write(twin_src)
+    twin_lib = os.path.join(stdlib_root, "json", "decoder.py")
+    n_twin = 0
+    for env in (None, "twin", "decoder,nothing"):
+        for first, second in ((twin_lib, twin_user), (twin_user, twin_lib)):
+            if env is None:
+                os.environ.pop("MONKEYTYPE_TRACE_MODULES", None)
+            else:
+                os.environ["MONKEYTYPE_TRACE_MODULES"] = env
+            default_code_filter.cache_clear()
+            for pos, nm in enumerate((first, second)):
+                c = [k for k in compile(twin_src, nm, "exec", dont_inherit=True).co_consts if isinstance(k, types.CodeType)][0]
+                try:
+                    a = default_code_filter(c)
+                    a = a if isinstance(a, bool) else "non-bool:" + repr(a)
+                except Exception as e:
+                    a = "raised:" + repr(e)
+                n_eval += 1
+                n_twin += 1
+                cases.append({"raw": nm, "resolved": oracle_resolve(nm), "env": env, "names": None if env is None else env.split(","),
+                              "impl": a, "n_code": 1, "kind": "twin", "primed_by": first if pos == 1 else None,
+                              "note": ("first call after cache_clear()" if pos == 0 else
+                                       f"called right after the filter was asked about the identical function `same` "
+                                       f"compiled from the same source under {first}")})
+    stats["twin_cases"] = n_twin
     os.environ.pop("MONKEYTYPE_TRACE_MODULES", None)
     default_code_filter.cache_clear()
     stats["filter_calls"] = n_eval
